@@ -107,8 +107,8 @@ func (c *c19Ctx) genScenario(seed uint64, progs []*c19Prog) *Scenario {
 	if s.Shape == "src-dst-lst" || s.Shape == "four" {
 		s.LstKind = pick(r, []string{"ok", "ok", "ok", "parent_missing", "same_as_dst", "existing"})
 	}
-	srcKinds := []string{"file", "missing", "dir", "mode000", "symlink_ok", "dangling", "loop", "spacename", "nonascii_name", "longname", "same_as_dst", "emptyarg"}
-	s.SrcKind = srcKinds[r.weighted([]int{80, 3, 2, 2, 2, 1, 1, 2, 2, 1, 2, 1})]
+	srcKinds := []string{"file", "missing", "dir", "mode000", "symlink_ok", "dangling", "loop", "spacename", "nonascii_name", "longname", "same_as_dst", "emptyarg", "fifo"}
+	s.SrcKind = srcKinds[r.weighted([]int{80, 3, 2, 2, 2, 1, 1, 2, 2, 1, 2, 1, 3})]
 	if r.Chance(1, 16) && len(s.Header)+len(s.Body) > 0 {
 		s.Break = 1 + r.Intn(4)
 		s.BreakLine = r.Intn(len(s.Header) + len(s.Body))
@@ -122,7 +122,12 @@ func (c *c19Ctx) genScenario(seed uint64, progs []*c19Prog) *Scenario {
 	if r.Chance(1, 5) || ((s.SrcKind == "mode000" || s.DstKind == "ro_file" || s.DstKind == "ro_dir") && r.Chance(3, 4)) {
 		s.Uid = nobody
 	}
-	if r.Chance(3, 10) && (s.Shape == "src-dst" || s.Shape == "src-dst-lst" || s.Shape == "d-src-dst") {
+	if s.SrcKind == "fifo" {
+		if src, _ := s.materialise(); len(src) > 60000 { // must fit the pipe buffer in one write
+			s.SrcKind = "file"
+		}
+	}
+	if r.Chance(3, 10) && (s.Shape == "src-dst" || s.Shape == "src-dst-lst" || s.Shape == "d-src-dst") && s.SrcKind != "fifo" {
 		_, plain := s.materialise()
 		_, img := c.imageOf(plain)
 		switch r.weighted([]int{35, 10, 55}) {
